@@ -334,13 +334,105 @@ def skipping_path(fn, adt, variant_discr, read_blocks, self_local=1):
                     if pl is not None and not pl["p"] and pl["l"] not in retl:
                         retl.add(pl["l"])
                         changed = True
+    # Path-sensitive in one respect: which variant an Option / Result local holds when that is syntactically evident on the
+    # path (`Ok(None)` built by an inlined helper and matched by the caller as `Ok(Some(x))` / `Ok(None)` / `Err(e)`;
+    # `opt.map(Some).ok_or_else(..)` is never `Ok(None)`).  Infeasible arms of such matches are not followed.
+    VIDX = {"None": 0, "Some": 1, "Ok": 0, "Err": 1, "Continue": 0, "Break": 1}
+
+    def shape_of_place(state, pl):
+        sh = state.get(pl["l"])
+        if sh is None:
+            return None
+        pend = None
+        for q in pl["p"]:
+            if q[0] == "d":
+                continue
+            if q[0] == "dc":
+                pend = q[1]
+                continue
+            if q[0] == "f" and pend is not None and q[1] == "0":
+                if sh[0] not in (pend, "?"):
+                    return None
+                sh = sh[1]
+                pend = None
+                if sh is None:
+                    return None
+                continue
+            return None
+        return sh
+
+    def shape_of_op(state, op):
+        pl = mir.op_place(op)
+        return shape_of_place(state, pl) if pl is not None else None
+
+    def step(state, b):
+        """state after the block's statements; also {discriminant local: place}"""
+        state = dict(state)
+        dmap = {}
+        for s in b["s"]:
+            l = s["lhs"]["l"]
+            if s["lhs"]["p"]:
+                state.pop(l, None)
+                continue
+            rv = s["rv"]
+            sh = None
+            if rv["k"] == "agg" and rv.get("variant") in VIDX and rv.get("adt", "").rsplit("::", 1)[-1] in ("Option", "Result", "ControlFlow"):
+                sh = (rv["variant"], shape_of_op(state, rv["ops"][0]) if rv.get("ops") else None)
+            elif rv["k"] == "use":
+                sh = shape_of_op(state, rv["op"])
+            elif rv["k"] == "discr":
+                dmap[l] = rv["pl"]
+            if sh is not None:
+                state[l] = sh
+            else:
+                state.pop(l, None)
+        return state, dmap
+
+    def call_shape(state, t):
+        c = t.get("callee") or ""
+        a = t["args"]
+        if c == "std::option::Option::<T>::map" and len(a) == 2:
+            k = mir.op_const(a[1])
+            if k and (k.get("fn") or "").endswith("::Some"):
+                s0 = shape_of_op(state, a[0])
+                if s0 and s0[0] == "None":
+                    return ("None", None)
+                return ((s0[0] if s0 and s0[0] == "Some" else "?"), ("Some", None))
+            return None
+        if c in ("std::option::Option::<T>::ok_or_else", "std::option::Option::<T>::ok_or") and a:
+            s0 = shape_of_op(state, a[0])
+            if s0:
+                return {"Some": ("Ok", s0[1]), "None": ("Err", None)}.get(s0[0], ("?", s0[1]))
+            return None
+        if c.endswith("Try>::branch") or c == "std::ops::Try::branch":
+            s0 = shape_of_op(state, a[0]) if a else None
+            if s0 and s0[0] in ("Ok", "Some"):
+                return ("Continue", s0[1])
+            if s0 and s0[0] in ("Err", "None"):
+                return ("Break", None)
+            if s0 and s0[0] == "?":
+                return ("?", s0[1])
+            return None
+        return None
+
     seen = set()
-    st = [0]
+    st = [(0, {})]
+    budget = 40000
+    import os as _os
+    _trace = _os.environ.get("VERIF_DEBUG_PATH")
     while st:
-        bi = st.pop()
-        if bi in seen or bi in read_blocks:
+        bi, state = st.pop()
+        if _trace:
+            print("  visit", bi, {k: v for k, v in state.items()}, "READ" if bi in read_blocks else "")
+        if bi in read_blocks:
             continue
-        seen.add(bi)
+        budget -= 1
+        if budget < 0:
+            state = {}
+        key = (bi, tuple(sorted(state.items())))
+        if key in seen:
+            continue
+        seen.add(key)
         b = blocks[bi]
         if b["cleanup"]:
             continue
@@ -354,6 +446,7 @@ def skipping_path(fn, adt, variant_discr, read_blocks, self_local=1):
                 dl = s["lhs"]["l"]
         if err:
             continue
+        state, dmap = step(state, b)
         t = b["t"]
         k = t["k"]
         if k == "return":
@@ -363,16 +456,32 @@ def skipping_path(fn, adt, variant_discr, read_blocks, self_local=1):
             if c.endswith("FromResidual::from_residual") and (t["dest"]["l"] in retl or not blocks[bi].get("inl")):
                 continue
             if t.get("t") is not None:
-                st.append(t["t"])
+                if not t["dest"]["p"]:
+                    sh = call_shape(state, t)
+                    if c.endswith("FromResidual::from_residual"):
+                        sh = ("Err", None) if "Result" in fn["locals"][t["dest"]["l"]][:30] else (("None", None) if "Option" in fn["locals"][t["dest"]["l"]][:30] else None)
+                    if sh is not None:
+                        state[t["dest"]["l"]] = sh
+                    else:
+                        state.pop(t["dest"]["l"], None)
+                st.append((t["t"], state))
             continue
-        if k == "switch" and dl is not None and variant_discr is not None:
+        if k == "switch":
             pl = mir.op_place(t["discr"])
-            if pl is not None and pl["l"] == dl:
+            if dl is not None and variant_discr is not None and pl is not None and pl["l"] == dl:
                 tg = dict((v, tb) for v, tb in t["targets"])
-                st.append(tg.get(variant_discr, t["otherwise"]))
+                st.append((tg.get(variant_discr, t["otherwise"]), state))
                 continue
+            if pl is not None and not pl["p"] and pl["l"] in dmap:
+                sh = shape_of_place(state, dmap[pl["l"]])
+                if sh is not None and sh[0] in VIDX:
+                    tg = dict((v, tb) for v, tb in t["targets"])
+                    nb = tg.get(VIDX[sh[0]], t["otherwise"])
+                    if nb is not None:
+                        st.append((nb, state))
+                    continue
         for n in mir.block_succs(b):
-            st.append(n)
+            st.append((n, state))
     return None
 
 
